@@ -509,6 +509,10 @@ class Core(composites.Composite):
 
         # Negative assembly IDs are placeholders, and we need to renumber the assembly
         if a.p.assemNum < 0:
+            # blocks that were exchanged into this assembly while it was outside the core may
+            # already be registered under the name they are about to lose
+            for b in a:
+                self.blocksByName.pop(b.getName(), None)
             a.renumber(self.r.incrementAssemNum())
 
         # resetting .assigned forces database to be rewritten for shuffled core
